@@ -50,9 +50,12 @@ theorem batch_validator_entries : batchValidatorEntries =
      "BatchWEB.Validate", "BatchXCK.Validate", "IATBatch.Validate"] := by
   decide
 
+/-- the file-level entry point -/
+theorem file_validator_entries : fileValidatorEntries = ["File.ValidateWith"] := by decide
+
 /-- every entry point was translated -/
 theorem validator_entries_present :
-    (validatorEntries ++ batchValidatorEntries).all (fun e => (validatorProgs.lookup e).isSome) = true := by decide +kernel
+    (validatorEntries ++ batchValidatorEntries ++ fileValidatorEntries).all (fun e => (validatorProgs.lookup e).isSome) = true := by decide +kernel
 
 /-- the translator understood every statement, expression and built-in of every function -/
 theorem validators_translated : validatorProgs.all (fun p => progKnown p.2) = true := by decide +kernel
@@ -113,6 +116,15 @@ theorem batch_control_totals_in_field (c : Ctx) (d cr : Int) (hroot : c.recv = "
     (.gt (.fld "TotalCreditEntryDollarAmount") (.int 999999999999)) (by decide +kernel)
   simp [eval, hroot, joinPath, hd, hc, cmpVals] at h1 h2
   omega
+
+/-- C15 for in-memory validation as a whole: `File.ValidateWith` — file header, every batch through the validator of
+its own SEC code (dispatch on the dynamic type), file control, batch count, entry/addenda count, totals, batch-number
+order, entry hash — accepts under O' whatever it accepts under O ⊆ O', for every file value (receiver and parameter
+options alike, every record carrying the same options; files in which `File.IsADV` would have to repair a missing
+batch header or control are outside the embedding: the run is stuck there, under both option sets) -/
+theorem file_validate_monotone (c c' : Ctx) (h : CtxLe c c')
+    (ha : run c v_File_ValidateWith = .accept) : run c' v_File_ValidateWith = .accept :=
+  record_validators_monotone "File.ValidateWith" v_File_ValidateWith (by decide +kernel) (by decide) c c' h ha
 
 /-! ### the hypotheses are satisfiable, and the flags matter (non-vacuity) -/
 
